@@ -190,7 +190,7 @@ def lit_footprint(prog, l):
     return footprint(prog, l[1]) if l[0] in ("is", "in", "notin") else set()
 
 
-def require(cx, site, key, text, accept, kill=True, detail=None):
+def require(cx, site, key, text, accept, kill=True, detail=None, assume=None):
     """Obligation instance: every path to `site` passes an edge carrying a literal accepted by
     `accept(lit) -> truthy`, and (if kill) nothing written afterwards can change that literal's value."""
     g = cx.pg(site.fn)
@@ -209,7 +209,7 @@ def require(cx, site, key, text, accept, kill=True, detail=None):
         return r
 
     # first without kills to find which literals are used, then with their footprint as kill set
-    ok, wit = g.guarded(site.at, ok_edge)
+    ok, wit = g.guarded(site.at, ok_edge, assume=assume)
     if ok and kill:
         fp = set()
         for l, a in accepted.items():
@@ -223,7 +223,7 @@ def require(cx, site, key, text, accept, kill=True, detail=None):
                 if k not in cache:
                     cache[k] = killed_rooted(prog.block_effects(site.fn, bi, upto), fp)
                 return cache[k]
-            ok, wit = g.guarded(site.at, ok_edge, kb)
+            ok, wit = g.guarded(site.at, ok_edge, kb, assume=assume)
             if not ok:
                 text = text + " [the guard's inputs may be overwritten between the guard and the site]"
     d = dict(detail or {})
